@@ -1,5 +1,5 @@
 """C02 — and / or / negate are the pointwise boolean operations."""
-from .. import build, framework as fw, markers, trees
+from .. import build, framework as fw, markers, trees, vmcheck
 from ..sexp import S, dump, pretty
 
 
@@ -59,7 +59,7 @@ def build_history(ctx, sess, n_parse, n_ops, kinds=('and', 'or', 'not'), battery
     return regs, steps
 
 
-def correspond(ctx, sess, steps, opname=None):
+def correspond(ctx, sess, steps, opname=None, vm=0):
     """step-wise: the model operation on the operands the crate produced vs the crate's result"""
     cmds, meta = [], []
     for k, ops, reg in steps:
@@ -77,6 +77,17 @@ def correspond(ctx, sess, steps, opname=None):
         if got != want:
             ctx.disagreement('%s ~ m_%s' % (k, k), {'op': k, 'operands': [markers.describe(sess, o) for o in ops]},
                              dump(got), dump(want))
+    if vm:
+        # the extracted OCaml against evaluation inside Coq on a sample of the same cases
+        idx = [i for i in range(len(cmds)) if isinstance(outs[i], (list, str)) and outs[i] != ['died'] and len(dump(cmds[i])) < 6000]
+        pick = ctx.rng.sample(idx, min(vm, len(idx)))
+        cases = []
+        for i in pick:
+            try:
+                cases.append((vmcheck.tree_op_case(cmds[i][0], cmds[i][1:], outs[i]), dump(cmds[i])[:300]))
+            except (ValueError, AssertionError):
+                pass
+        vmcheck.crosscheck(ctx, cases, 'ops%d' % ctx.evaluations)
     return meta
 
 
@@ -123,7 +134,7 @@ def run(ctx):
         regs, steps = build_history(ctx, sess, 120 if quick else 300, 400 if quick else 1500, battery=True)
         bad = monitor(ctx, sess, regs)
         ctx.extra['monitor_wfb_false'] = ctx.extra.get('monitor_wfb_false', 0) + len(bad)
-        meta = correspond(ctx, sess, steps)
+        meta = correspond(ctx, sess, steps, vm=(25 if quick else 150) if rd == 0 else 0)
         # implementation-level oracle on the grid
         for k, ops, reg in steps:
             try:
